@@ -62,6 +62,7 @@ func main() {
 	out := flag.String("out", "", "output directory (outside the repository)")
 	rt := flag.String("rt", "/verif/rt/verifrt", "runtime sources")
 	callPkgs := flag.String("callpkgs", "internal/queues,internal/linkedlist,internal/helpers,internal/pool,internal/linkedbuffer", "packages whose methods get call/return events")
+	flag.BoolVar(&memOn, "mem", true, "wrap plain accesses to shared memory (C19)")
 	var adds addFlag
 	flag.Var(&adds, "add", "repoRelativePath=sourceFile : extra file to add through the overlay (repeatable)")
 	flag.Parse()
@@ -176,6 +177,9 @@ type rewriter struct {
 	litCount map[string]int
 	usesRT   bool
 	recv2    map[*ast.UnaryExpr]bool
+	mem      map[ast.Node]string // plain memory accesses to wrap: node ↦ "r" | "w"
+	yieldAt  map[ast.Node]bool   // statements that call a function value (decided before rewriting)
+	mapWrite map[*ast.IndexExpr]bool
 }
 
 func (rw *rewriter) fn() string {
@@ -188,7 +192,49 @@ func (rw *rewriter) fn() string {
 func (rw *rewriter) text(n ast.Node) string {
 	var b bytes.Buffer
 	printer.Fprint(&b, rw.pkg.Fset, n)
-	return strings.Join(strings.Fields(b.String()), "")
+	return unwrapMem(strings.Join(strings.Fields(b.String()), ""))
+}
+
+// unwrapMem removes the memory-access wrappers from a printed expression:
+// "(*verifrt.Rd(12,&w.x))" and "*verifrt.Wr(12,&w.x)" become "w.x".
+func unwrapMem(s string) string {
+	for {
+		p := strings.Index(s, "*verifrt.Rd(")
+		if q := strings.Index(s, "*verifrt.Wr("); q >= 0 && (p < 0 || q < p) {
+			p = q
+		}
+		if p < 0 {
+			return s
+		}
+		i := p + len("*verifrt.Rd(")
+		for i < len(s) && s[i] >= '0' && s[i] <= '9' {
+			i++
+		}
+		if !strings.HasPrefix(s[i:], ",&") {
+			return s
+		}
+		i += 2
+		start, depth := i, 0
+		for i < len(s) {
+			if s[i] == '(' || s[i] == '[' || s[i] == '{' {
+				depth++
+			} else if s[i] == ')' || s[i] == ']' || s[i] == '}' {
+				if depth == 0 {
+					break
+				}
+				depth--
+			}
+			i++
+		}
+		if i >= len(s) {
+			return s
+		}
+		inner, end := s[start:i], i+1
+		if p > 0 && s[p-1] == '(' && end < len(s) && s[end] == ')' {
+			p, end = p-1, end+1
+		}
+		s = s[:p] + inner + s[end:]
+	}
 }
 
 func recvBase(e ast.Expr) string {
@@ -267,6 +313,7 @@ func (rw *rewriter) run() {
 	rw.litCount = map[string]int{}
 	rw.recv2 = map[*ast.UnaryExpr]bool{}
 	info := rw.pkg.TypesInfo
+	rw.planMem()
 
 	pre := func(c *astutil.Cursor) bool {
 		switch n := c.Node().(type) {
@@ -310,7 +357,16 @@ func (rw *rewriter) run() {
 		case *ast.FuncLit:
 			rw.fnStack = rw.fnStack[:len(rw.fnStack)-1]
 
+		case *ast.Ident:
+			if m := rw.mem[n]; m != "" {
+				rw.wrapMem(c, n, m)
+			}
+
 		case *ast.SelectorExpr:
+			if m := rw.mem[n]; m != "" {
+				rw.wrapMem(c, n, m)
+				break
+			}
 			// time.Ticker / time.Time / time.Now (as a value) in any position
 			if id, ok := n.X.(*ast.Ident); ok {
 				if pn, ok := info.Uses[id].(*types.PkgName); ok && pn.Imported().Path() == "time" {
@@ -347,12 +403,12 @@ func (rw *rewriter) run() {
 			// a call of a function value (callback: worker function, WithSafe's fn) followed by a
 			// scheduling point: what the callback's result was stored into can be touched by
 			// other goroutines before the caller reads it
-			if len(n.Rhs) == 1 && c.Index() >= 0 && rw.isFuncValueCall(n.Rhs[0]) {
+			if c.Index() >= 0 && rw.yieldAt[n] {
 				rw.usesRT = true
 				c.InsertAfter(&ast.ExprStmt{X: rw.rtCall("Yield")})
 			}
 		case *ast.ExprStmt:
-			if c.Index() >= 0 && rw.isFuncValueCall(n.X) {
+			if c.Index() >= 0 && rw.yieldAt[n] {
 				rw.usesRT = true
 				c.InsertAfter(&ast.ExprStmt{X: rw.rtCall("Yield")})
 			}
@@ -399,6 +455,261 @@ func (rw *rewriter) run() {
 	if !usesPkgName(rw.file, "time") {
 		astutil.DeleteImport(fset, rw.file, "time")
 	}
+}
+
+var memOn = true
+
+func syncish(t types.Type) bool {
+	if p, ok := t.Underlying().(*types.Pointer); ok {
+		t = p.Elem()
+	}
+	if p, ok := t.(*types.Pointer); ok {
+		t = p.Elem()
+	}
+	n := namedOf(t)
+	if n == nil || n.Obj().Pkg() == nil {
+		return false
+	}
+	switch n.Obj().Pkg().Path() {
+	case "sync", "sync/atomic":
+		return true
+	}
+	return false
+}
+
+// planMem decides, on the untouched syntax tree, which expressions are plain accesses to shared
+// memory: fields of structs declared in this module (through any chain of struct-valued fields) and
+// local variables that a function literal captures and somebody reassigns.
+func (rw *rewriter) planMem() {
+	rw.mem = map[ast.Node]string{}
+	rw.yieldAt = map[ast.Node]bool{}
+	info := rw.pkg.TypesInfo
+	pkgScope := rw.pkg.Types.Scope()
+	isLocal := func(v *types.Var) bool {
+		return v != nil && !v.IsField() && v.Pkg() == rw.pkg.Types && v.Parent() != nil && v.Parent() != pkgScope
+	}
+	// captured and reassigned local variables
+	captured := map[*types.Var]bool{}
+	assigned := map[*types.Var]bool{}
+	ast.Inspect(rw.file, func(n ast.Node) bool {
+		switch x := n.(type) {
+		case *ast.FuncLit:
+			ast.Inspect(x.Body, func(m ast.Node) bool {
+				if id, ok := m.(*ast.Ident); ok {
+					if v, ok := info.Uses[id].(*types.Var); ok && isLocal(v) && (v.Pos() < x.Pos() || v.Pos() >= x.End()) {
+						captured[v] = true
+					}
+				}
+				return true
+			})
+		case *ast.AssignStmt:
+			if x.Tok != token.DEFINE {
+				for _, l := range x.Lhs {
+					if id, ok := l.(*ast.Ident); ok {
+						if v, ok := info.Uses[id].(*types.Var); ok {
+							assigned[v] = true
+						}
+					}
+				}
+			}
+		case *ast.IncDecStmt:
+			if id, ok := x.X.(*ast.Ident); ok {
+				if v, ok := info.Uses[id].(*types.Var); ok {
+					assigned[v] = true
+				}
+			}
+		case *ast.UnaryExpr:
+			if x.Op == token.AND {
+				if id, ok := x.X.(*ast.Ident); ok {
+					if v, ok := info.Uses[id].(*types.Var); ok {
+						assigned[v] = true
+					}
+				}
+			}
+		}
+		return true
+	})
+	inComm := 0
+	pre := func(c *astutil.Cursor) bool {
+		n := c.Node()
+		if cc, ok := n.(*ast.CommClause); ok && cc.Comm != nil {
+			_ = cc
+		}
+		switch x := n.(type) {
+		case *ast.AssignStmt:
+			if len(x.Rhs) == 1 && rw.isFuncValueCall(x.Rhs[0]) {
+				rw.yieldAt[x] = true
+			}
+		case *ast.ExprStmt:
+			if rw.isFuncValueCall(x.X) {
+				rw.yieldAt[x] = true
+			}
+		}
+		if !memOn {
+			return true
+		}
+		e, ok := n.(ast.Expr)
+		if !ok {
+			return true
+		}
+		var ft types.Type
+		switch x := e.(type) {
+		case *ast.SelectorExpr:
+			sel := info.Selections[x]
+			if sel == nil || sel.Kind() != types.FieldVal {
+				return true
+			}
+			f, _ := sel.Obj().(*types.Var)
+			if f == nil || f.Pkg() == nil || !strings.HasPrefix(f.Pkg().Path(), modPath) {
+				return true
+			}
+			ft = sel.Type()
+			// a chain of struct-valued fields hanging off a local struct variable is private memory
+			root := x.X
+			for {
+				if p, ok := root.(*ast.ParenExpr); ok {
+					root = p.X
+					continue
+				}
+				if s2, ok := root.(*ast.SelectorExpr); ok {
+					if sl := info.Selections[s2]; sl != nil && sl.Kind() == types.FieldVal {
+						if _, isStruct := sl.Type().Underlying().(*types.Struct); isStruct {
+							root = s2.X
+							continue
+						}
+					}
+				}
+				break
+			}
+			if id, ok := root.(*ast.Ident); ok {
+				if v, ok := info.Uses[id].(*types.Var); ok && isLocal(v) && !captured[v] {
+					if _, isStruct := v.Type().Underlying().(*types.Struct); isStruct {
+						return true
+					}
+				}
+			}
+		case *ast.Ident:
+			v, _ := info.Uses[x].(*types.Var)
+			if v == nil || !isLocal(v) || !captured[v] || !assigned[v] {
+				return true
+			}
+			if p, ok := c.Parent().(*ast.SelectorExpr); ok && p.Sel == x {
+				return true
+			}
+			ft = v.Type()
+		default:
+			return true
+		}
+		if syncish(ft) {
+			return true
+		}
+		tv, ok := info.Types[e]
+		if !ok || !tv.Addressable() {
+			return true
+		}
+		mode := "r"
+		switch p := c.Parent().(type) {
+		case *ast.SelectorExpr:
+			// x.f.g with f a struct value: the access is to x.f.g only
+			if p.X == e {
+				switch ft.Underlying().(type) {
+				case *types.Struct, *types.Array:
+					return true
+				}
+			}
+		case *ast.UnaryExpr:
+			if p.Op == token.AND {
+				return true
+			}
+		case *ast.AssignStmt:
+			if c.Name() == "Lhs" {
+				if p.Tok == token.DEFINE {
+					return true
+				}
+				mode = "w"
+			}
+		case *ast.IncDecStmt:
+			mode = "w"
+		case *ast.RangeStmt:
+			if p.Key == e || p.Value == e {
+				return true
+			}
+		case *ast.IndexExpr:
+			if p.X == e {
+				switch ft.Underlying().(type) {
+				case *types.Array:
+					return true
+				case *types.Map:
+					if rw.mapWrite[p] {
+						mode = "w"
+					}
+				}
+			}
+		case *ast.CallExpr:
+			if id, ok := p.Fun.(*ast.Ident); ok && len(p.Args) > 0 && p.Args[0] == e {
+				if _, isB := info.Uses[id].(*types.Builtin); isB && (id.Name == "delete" || id.Name == "clear") {
+					mode = "w"
+				}
+			}
+		}
+		rw.mem[e] = mode
+		return true
+	}
+	// map element assignments: m[k] = v, m[k]++, m[k] op= v
+	rw.mapWrite = map[*ast.IndexExpr]bool{}
+	ast.Inspect(rw.file, func(n ast.Node) bool {
+		switch x := n.(type) {
+		case *ast.AssignStmt:
+			for _, l := range x.Lhs {
+				if ix, ok := l.(*ast.IndexExpr); ok {
+					rw.mapWrite[ix] = true
+				}
+			}
+		case *ast.IncDecStmt:
+			if ix, ok := x.X.(*ast.IndexExpr); ok {
+				rw.mapWrite[ix] = true
+			}
+		}
+		return true
+	})
+	// the communication statements of select are rewritten as a whole: leave them alone
+	commDepth := map[ast.Node]bool{}
+	ast.Inspect(rw.file, func(n ast.Node) bool {
+		if cc, ok := n.(*ast.CommClause); ok && cc.Comm != nil {
+			commDepth[cc.Comm] = true
+		}
+		return true
+	})
+	astutil.Apply(rw.file, func(c *astutil.Cursor) bool {
+		if commDepth[c.Node()] {
+			inComm++
+		}
+		return pre(c)
+	}, func(c *astutil.Cursor) bool {
+		if commDepth[c.Node()] {
+			inComm--
+		}
+		return true
+	})
+}
+
+func (rw *rewriter) wrapMem(c *astutil.Cursor, e ast.Expr, mode string) {
+	name := "Rd"
+	if mode == "w" {
+		name = "Wr"
+	}
+	site := addSite(rw.fn(), "mem", rw.text(e), mode, rw.rel)
+	call := rw.rtCall(name, intLit(site), &ast.UnaryExpr{Op: token.AND, X: e})
+	var out ast.Expr = &ast.StarExpr{X: call}
+	if mode == "r" {
+		out = &ast.ParenExpr{X: out}
+	} else if _, isAssignLhs := c.Parent().(*ast.AssignStmt); !isAssignLhs {
+		out = &ast.ParenExpr{X: out}
+	}
+	if tv, ok := rw.pkg.TypesInfo.Types[e]; ok {
+		rw.pkg.TypesInfo.Types[out] = tv
+	}
+	c.Replace(out)
 }
 
 // isFuncValueCall: e is a call whose callee is a variable or parameter of function type
